@@ -7,6 +7,20 @@ ROOT = os.path.dirname(os.path.dirname(os.path.abspath(__file__)))
 ALL = [f"C{k:02d}" for k in range(1, 21)]
 
 CLAIMED = {
+    "C14": dict(
+        text=("Selectors.tla: TableSlice (rows of an index range labelled with their row numbers, any column subset) and Annotate (every "
+              "pixel gets the attributes of its own two bins, order and index kept) declaratively, and api.annotate's strategy "
+              "switch (empty frame / window [min,max] when fewer pixels than bins / whole table; positional take relative to the "
+              "window's first label; partial bin tables) as Layer A; TLC checks for ALL pixel sequences of <=3 pixels over 4 bins x "
+              "ALL contiguous parts containing the needed bins that the algorithm = the declaration, and for ALL slice spellings "
+              "that the selector's normalisation = the array's selection (10 757 states). Real chroms()/bins()/pixels() selectors "
+              "are sliced with every spelling and random column subsets (single column, reordered) on enum and integer chromosome "
+              "encodings; cooler.annotate is run on pixel subsets of 0..2n+3 pixels in arbitrary order with arbitrary index labels "
+              "and id dtypes against data frame / selector / column-restricted selector / partial tables, and pixels(join=True) on "
+              "row ranges; TLC validates rows, labels, columns, attributes, order and index."),
+        design_ref="DESIGN.md section 6 C14, section 4.11",
+        note="Trusted: TLC, structural projection (chromosome names mapped to indexes).",
+        technique="TLA+ model checking (TLC) of the annotation strategy + TLC trace validation of real selections/joins", category="model_checking"),
     "C16": dict(
         text=("TextIO.tla defines what `cooler dump` must print (DumpRows) through the library queries of the specification (stored "
               "records in the window in storage order; the full-matrix block with fill-lower; joined coordinates; balanced values; "
